@@ -15,6 +15,7 @@ The event channel (capacity 10, simulation.go:108) is a FIFO list; `postEvent` b
 post on a full queue is a precondition violation (`Sim.canPost`); the harness keeps a poller running.
 -/
 import Tcell.Model.Cell
+import Tcell.Model.LockRegion
 import Tcell.Model.Encode
 namespace Tcell
 
@@ -263,13 +264,14 @@ namespace Tcell
 
 /-- the operation language of draw histories on a SimulationScreen: SetContent, Fill, Show, Sync, SetSize, ShowCursor,
 InjectKey, InjectMouse exactly as the `sim` engine's case lines S F W N Z C K M are executed by `Driver.Sim.stepOp`, plus
-the per-cell steps of `LockRegion` (screen.go:424 loops `LockCell` / `UnlockCell` of the C08 buffer over the region;
-not generated by the engine, covered by the proof) -/
+`LockRegion` (screen.go:424, the code shared by every backend: `Tcell.lockRowsG`, engine op L) and its per-cell steps
+`LockCell` / `UnlockCell` of the C08 buffer -/
 inductive SimOp where
   | setContent (x y : Int) (mainc : Rune) (combc : List Rune) (style : Style)
   | fill (r : Rune) (style : Style)
   | lockCell (x y : Int)
   | unlockCell (x y : Int)
+  | lockRegion (x y w h : Int) (lock : Bool)   -- screen.go:424 (`Tcell.lockRowsG`; engine op L)
   | present
   | sync
   | setSize (w h : Int)
@@ -289,6 +291,7 @@ def Sim.stepS (rw : Rune → Int) (v : SimVariant) (enc : Encoder) (s : Sim) : S
   | .fill r st => { s with back := s.back.fill r st }
   | .lockCell x y => { s with back := s.back.lockCell x y }
   | .unlockCell x y => { s with back := s.back.unlockCell x y }
+  | .lockRegion x y w h lock => { s with back := lockRowsG s.back x y w lock h.toNat }
   | .present => s.showScr v enc
   | .sync => s.sync v enc
   | .setSize w h => s.setSize v w h
